@@ -15,6 +15,7 @@ import (
 	"github.com/bluenviron/gomavlib/v3/pkg/message"
 
 	"verifharness/evid"
+	appcommon "verifharness/msg/app/common"
 	"verifharness/msg/other"
 	"verifharness/ref"
 )
@@ -33,16 +34,22 @@ func TestC04Namesakes(t *testing.T) {
 	namesakesProperty(t, "C04", "TestC04Namesakes")
 }
 
+// TestC03Namesakes: the layout of a message type is derived from that type's definition, whatever other type of the
+// same name (in a package of the same name, even) the process knows.
+func TestC03Namesakes(t *testing.T) {
+	namesakesProperty(t, "C03", "TestC03Namesakes")
+}
+
 func namesakesProperty(t *testing.T, pid, testName string) {
-	rec := evid.New(t, pid, "an application dialect with namesakes of standard messages (same id, same Go type name, another package, another layout) and a shipped dialect (minimal / common / ardupilotmega) are initialized in one fresh process, in both orders and through both constructors; for ids 0, 1, 23, 30 each dialect's GetMessage must return a codec whose CRC_EXTRA is the reference value for that dialect's own type, that encodes that type's values as the reference does and decodes them back into that type; each (shipped dialect, order, constructor) is a case, all 12 enumerated")
+	rec := evid.New(t, pid, "an application dialect with namesakes of standard messages (same id, same Go type name, another package, another layout) and a shipped dialect (minimal / common / ardupilotmega) are initialized in one fresh process, in both orders and through both constructors; for ids 0, 1, 23, 30 each dialect's GetMessage must return a codec whose CRC_EXTRA is the reference value for that dialect's own type, that encodes that type's values as the reference does and decodes them back into that type; each (shipped dialect, order, constructor, name of the application's package: other, or common like a shipped one) is a case, all 24 enumerated")
 	for _, shipped := range []string{"minimal", "common", "ardupilotmega"} {
 		for _, order := range []string{"application-first", "shipped-first"} {
-			for _, ctor := range []string{"Initialize", "NewReadWriter"} {
+			for _, ctor := range []string{"Initialize", "NewReadWriter", "Initialize/app-package-named-common", "NewReadWriter/app-package-named-common"} {
 				cmd := exec.Command(os.Args[0], "-test.run=^TestC17NamesakesChild$", "-test.count=1")
 				cmd.Env = append(os.Environ(), "VERIF_NAMESAKES="+shipped+","+order+","+ctor)
 				out, err := cmd.CombinedOutput()
 				if err != nil || !strings.Contains(string(out), "NAMESAKES-OK") {
-					msg := fmt.Sprintf("shipped dialect %s, %s, codecs built with %s:\n%s", shipped, order, ctor, out)
+					msg := fmt.Sprintf("shipped dialect %s, %s, codecs built with %s (the application's package is called \"other\", or \"common\" like a shipped one where noted):\n%s", shipped, order, ctor, out)
 					if !strings.Contains(string(out), "NAMESAKES-FAIL") {
 						t.Fatalf("BROKEN: child process: %v\n%s", err, out)
 					}
@@ -53,7 +60,7 @@ func namesakesProperty(t *testing.T, pid, testName string) {
 			}
 		}
 	}
-	rec.Exhaustive("3 shipped dialects x 2 initialization orders x 2 constructors")
+	rec.Exhaustive("3 shipped dialects x 2 initialization orders x 2 constructors x 2 names of the application's package")
 	rec.Sample("namesakes", "other.MessageHeartbeat (id 0: uint32, uint8, char[6]) next to minimal.MessageHeartbeat, application dialect initialized first")
 }
 
@@ -66,6 +73,12 @@ func TestC17NamesakesChild(t *testing.T) {
 	parts := strings.Split(spec, ",")
 	shippedD := map[string]*dialect.Dialect{"minimal": minimal.Dialect, "common": common.Dialect, "ardupilotmega": ardupilotmega.Dialect}[parts[0]]
 	app := &dialect.Dialect{Version: 3, Messages: []message.Message{&other.MessageHeartbeat{}, &other.MessageSysStatus{}, &other.MessageParamSet{}, &other.MessageAttitude{}}}
+	if strings.HasSuffix(parts[2], "/app-package-named-common") {
+		// the application's package has the name of a shipped one (its own "common", generated from its own
+		// definitions, imported from its own path): the types are as different as before
+		app = &dialect.Dialect{Version: 3, Messages: []message.Message{&appcommon.MessageHeartbeat{}, &appcommon.MessageSysStatus{}, &appcommon.MessageParamSet{}, &appcommon.MessageAttitude{}}}
+		parts[2] = strings.TrimSuffix(parts[2], "/app-package-named-common")
+	}
 	mk := func(d *dialect.Dialect) *dialect.ReadWriter {
 		if parts[2] == "NewReadWriter" {
 			rw, err := dialect.NewReadWriter(d) //nolint:staticcheck
